@@ -11,6 +11,9 @@ use crate::sim::{
 
 #[derive(Clone, Copy, Debug)]
 pub struct RxGen {
+    /// the receiving application may shut its own direction down early (its FIN is then acknowledged by the
+    /// peer's data packets: receiving continues in the half-closed states)
+    pub early_shutdown: bool,
     pub hostile: bool,
     pub max_steps: usize,
     pub with_writes: bool,
@@ -66,6 +69,11 @@ pub fn strategy(g: RxGen) -> BoxedStrategy<SpCase> {
             if g.with_writes {
                 choices.push((2, (1u32..3000).prop_map(|n| Step::W(WOp::Write { n, chunk: 65536 })).boxed()));
                 choices.push((2, (0i16..3, prop_oneof![Just(1u32 << 20), Just(100_000u32)]).prop_map(|(back, wnd)| Step::Peer(PeerOp::Ack { back, wnd, sack: None })).boxed()));
+            }
+            if g.early_shutdown {
+                choices.push((1, Just(Step::W(WOp::Shutdown)).boxed()));
+                choices.push((3, (prop_oneof![4 => Just(0i16), 1 => 1i16..4], 1u16..=maxp).prop_map(|(dseq, len)| Step::Peer(PeerOp::DataAck { dseq, len })).boxed()));
+                choices.push((1, (1i16..4).prop_map(|dseq| Step::Peer(PeerOp::Fin { dseq })).boxed()));
             }
             if g.hostile {
                 choices.push((1, (-3i16..6).prop_map(|dseq| Step::Peer(PeerOp::Fin { dseq })).boxed()));
